@@ -8,6 +8,7 @@
 package manager
 
 import (
+	"context"
 	"sort"
 	"sync"
 	"sync/atomic"
@@ -166,16 +167,31 @@ func (m *xdsResourceManager) VerifWatch(rt xdsresource.ResourceType, name string
 // VerifYieldFn, when set, is called at the yield points of Get:
 // 1 after the first cache miss, 2 before the select, 3 after the notifier arm fired,
 // 4 after the deadline arm fired.
-var verifYieldFn atomic.Value // func(point int, rt xdsresource.ResourceType, name string)
+var verifYieldFn atomic.Value // func(ctx context.Context, point int, rt xdsresource.ResourceType, name string)
 
-func SetVerifYield(f func(point int, rt xdsresource.ResourceType, name string)) {
+// SetVerifYield installs the function called at Get's yield points; ctx is the context of that
+// Get call (the caller's context before point 2, the derived timeout context afterwards).
+func SetVerifYield(f func(ctx context.Context, point int, rt xdsresource.ResourceType, name string)) {
 	verifYieldFn.Store(f)
 }
 
-func verifYield(point int, rt xdsresource.ResourceType, name string) {
-	if f, ok := verifYieldFn.Load().(func(int, xdsresource.ResourceType, string)); ok && f != nil {
-		f(point, rt, name)
+func verifYield(ctx context.Context, point int, rt xdsresource.ResourceType, name string) {
+	if f, ok := verifYieldFn.Load().(func(context.Context, int, xdsresource.ResourceType, string)); ok && f != nil {
+		f(ctx, point, rt, name)
 	}
+}
+
+// VerifEvict performs the body of one firing cleaner iteration for (rt, name), without the age test.
+func (m *xdsResourceManager) VerifEvict(rt xdsresource.ResourceType, name string) {
+	m.mu.Lock()
+	defer m.mu.Unlock()
+	if _, ok := m.meta[rt]; ok {
+		delete(m.meta[rt], name)
+	}
+	if m.cache[rt] != nil {
+		delete(m.cache[rt], name)
+	}
+	m.client.Watch(rt, name, true)
 }
 
 // sender progress counters, keyed by the client's request channel.
